@@ -52,6 +52,11 @@ CLAIMED = {
         text="TLC checks on JoinImpl that join returns (fair) and only after the body, with every callback run once, for every interleaving of join with the exit-callback loop, and shows the pre-fix loop violates it; recorded histories of real pika::thread/jthread handles (join before/during/after termination, double join, detach, jthread destruction, interrupt with enabled/disabled scopes, stop tokens, user exit callbacks; 4 policies x 1-4 workers; delays at join.*/exitcb.*/state-word hooks) must be behaviours of ThreadAbs, including the 'body finished' flag the joiner reads right after join",
         note="sequential consistency; sampled schedules; one open finding (join may return before earlier-registered exit callbacks ran) is listed in known_findings.json",
         design="5/C13"),
+    "C09": dict(
+        technique="TLA+ fine-grained specs LatchImpl (atomic counter vs. notified_/queue under the lock) and BarrierImpl (tournament tree of ticket CASes, completion, phase publication) model-checked by TLC + abstract spec LbeoAbs with TLC trace validation of latch/barrier/event/call_once histories from the real code",
+        text="TLC explores every interleaving of the latch protocol (4 participants mixing count_down/arrive_and_wait/wait) and of the barrier's tournament arrival for 3, 4 (thorough: 5) participants x 2 phases with any start node, proving no early return/departure, completion exactly once per phase and termination, and that the two seeded variants fail; real histories (participants on tasks and OS threads, more participants than workers, drops, throwing call_once bodies, simultaneous arrive_and_wait storms) must be behaviours of LbeoAbs, whose quiescence rule rejects a waiter stuck after the count reached zero / the phase advanced",
+        note="sequential consistency; sampled schedules for the real code; barrier expected_adjustment (drops) only in the abstract spec and traces, not in BarrierImpl",
+        design="5/C09"),
 }
 
 NOT_YET = {}
